@@ -746,3 +746,69 @@ func zzWriteRRCWithinBudget() {
 		}
 	}
 }
+
+// "Only the newest record may start a path validation", per content type and protocol version: on a DTLS 1.2 or 1.3
+// server connection with RRC negotiated, an authentic record with sequence number s+5 arrives from the validated
+// address A, then an authentic, not yet seen but OLDER record (s+2; application data, alert warning, ACK - DTLS 1.3 -
+// or a return-routability message of unknown type) carrying our CID arrives from a new address B. Being overtaken
+// makes a record stale whatever its type: nothing is sent to B (no path challenge), no challenge cookie is drawn, the
+// peer address stays A.
+//
+//symgo:entry covers=stale12,stale13,stale_ack13
+func zzStaleRecordNeverStartsValidation() {
+	v13 := zzsymChoice("dtls13", 2) == 1
+	nLocal, nRemote := zzsymParam("NLCID"), 1
+	var c *Conn
+	var pc *zzTxPC
+	var mk func(seq uint64, realType byte, content []byte) []byte
+	if v13 {
+		var prot *zzTxProt13
+		var localCID []byte
+		c, pc, prot, localCID = zzSwConn13(nLocal, nRemote)
+		mk = func(seq uint64, t byte, content []byte) []byte { return zzSwRecord13(localCID, seq, t, content) }
+		prot.openOK = true
+	} else {
+		var suite *zzSwSuite
+		var localCID []byte
+		c, pc, suite, localCID = zzSwConn(nLocal, nRemote, true)
+		mk = func(seq uint64, t byte, content []byte) []byte {
+			return zzSwRecord(localCID, true, 1, zzSwSeqBytes(seq), t, content)
+		}
+		suite.authOK = true
+	}
+	ctx := context.Background()
+	s, _ := zzSwSeq48("s")
+	zzsymAssume(zzsymAnd(s >= 1, s <= 90))
+	zzSwTick()
+	_, err := c.processIncomingPacket(ctx, mk(s+5, 23, zzsymBytes("app_newest", 2)), zzSwAddrA, nil)
+	zzsymAssert(err == nil, "record_accepted")
+	<-c.decrypted
+	w0, r0 := len(pc.writes), len(zzSwRand)
+	var stale []byte
+	switch kind := zzsymChoice("stale_kind", 4); {
+	case kind == 0:
+		stale = mk(s+2, 23, zzsymBytes("app_stale", 2))
+	case kind == 1:
+		stale = mk(s+2, 21, []byte{1, zzsymU8("alert_description")})
+	case kind == 2 && v13:
+		stale = mk(s+2, 26, []byte{0, 0}) // ACK naming no records
+		zzsymCover("stale_ack13")
+	default:
+		stale = mk(s+2, 27, append([]byte{9}, zzsymBytes("rrc_unknown_type", 8)...))
+	}
+	zzSwTick()
+	_, _ = c.processIncomingPacket(ctx, stale, zzSwAddrB, nil)
+	for len(c.decrypted) > 0 {
+		<-c.decrypted
+	}
+	for _, w := range pc.writes[w0:] {
+		zzsymAssert(w.to != zzSwAddrB, "stale_record_sends_nothing_to_its_source")
+	}
+	zzsymAssert(len(zzSwRand) == r0, "stale_record_draws_no_challenge_cookie")
+	zzsymAssert(c.rAddr == zzSwAddrA, "stale_record_keeps_peer_address")
+	if v13 {
+		zzsymCover("stale13")
+	} else {
+		zzsymCover("stale12")
+	}
+}
